@@ -8,6 +8,7 @@ in known_findings.json; `each_fix_is_needed` keeps the witnesses of what it look
 -/
 import GeckoModel.Model.Teardown
 import GeckoModel.Model.Coop
+import GeckoModel.Proofs.Cancel
 import GeckoModel.Generated.Skeletons
 
 namespace GeckoModel.C10
@@ -126,5 +127,25 @@ theorem awaits_inside_finally_are_the_finished_announcements :
     (Skeletons.all.filter fun p => !(Coop.actions .finEnter p.2).isEmpty).map (·.1) =
       ["async_locator.py:GeckoAsyncLocator.discover", "async_spa_manager.py:GeckoAsyncSpaMan.async_locate_spas",
        "async_spa_manager.py:GeckoAsyncSpaMan.async_connect_to_spa"] := by decide +kernel
+
+/-! ### cancellation ends a task -/
+
+/-- **no coroutine swallows its cancellation** (all regenerated coroutine skeletons of the source tree, with Python's rule for which
+handler gets a `CancelledError`: the first in source order that is bare, `BaseException` or `CancelledError` - `except Exception`
+does not): wherever a task of an abandoned connection is suspended when the reset or the context exit cancels it - in a loop's
+sleep, inside a request, inside a callback it is delivering - the coroutine ends by the exception; none logs it and carries on -/
+theorem cancellation_ends_every_coroutine : ∀ p ∈ Skeletons.all, Coop.neverSwallowsCancel p.2 = true := by decide +kernel
+
+/-- the same semantically: every cancellation of every coroutine, at whichever await and after whatever it did before, propagates -/
+theorem cancellation_propagates (p : String × Coop.Sk) (hp : p ∈ Skeletons.all) {o : Coop.Out} (h : Coop.Cancelled p.2 o) : o = .exc :=
+  Coop.cancel_propagates (cancellation_ends_every_coroutine p hp) h
+
+/-- non-vacuity: a consumer loop that wraps its callbacks in a bare `except:` which only logs swallows a cancellation that lands
+inside a callback (the loop goes on: outcome `fall`), and the analysis sees it; with `except Exception:` it does not -/
+example : Coop.Cancelled (.loop (.tryExc (.ev (.aw "self.async_handled")) (.seq (.ev (.act ⟨.exc, ""⟩)) (.ev (.act ⟨.call, "log"⟩))))) .fall :=
+  Coop.Cancelled.loopNow (o := .fall) (Coop.Cancelled.tryCaught (hb := .ev (.act ⟨.call, "log"⟩)) (t := [.act ⟨.call, "log"⟩]) (Coop.Cancelled.aw _) (by decide) (Coop.Run.ev _))
+example : Coop.neverSwallowsCancel (.loop (.tryExc (.ev (.aw "self.async_handled")) (.seq (.ev (.act ⟨.exc, ""⟩)) (.ev (.act ⟨.call, "log"⟩))))) = false ∧
+    Coop.neverSwallowsCancel (.loop (.tryExc (.ev (.aw "self.async_handled")) (.seq (.ev (.act ⟨.exc, "Exception"⟩)) (.ev (.act ⟨.call, "log"⟩))))) = true := by
+  decide +kernel
 
 end GeckoModel.C10
